@@ -130,8 +130,7 @@ func (ex *Exec) refAxiom(key, name string, srt Sort, alloc string) {
 		}
 	}
 	if lo == "" {
-		// virtual references of existing objects lie in [-(alloc+1)*N, -1]
-		lo = fmt.Sprintf("(- (* (+ %s 1) %d))", alloc, len(addressable))
+		lo = "0"
 	}
 	if lo != "0" {
 		switch srt {
@@ -236,9 +235,12 @@ var addressable = map[string]int{}             // "T.f" -> ordinal
 var addressableElem = map[string]bool{}        // typeKey of field types that have virtual objects
 var addressableFieldType = map[string]string{} // "T.f" -> typeKey(field type)
 
+// Every allocation has its own reference regardless of type, so an embedded
+// addressable field can share the reference of its enclosing object: the
+// field's leaves live in the arrays of the field's own type at that same
+// reference (at most one addressable field per field type and container type).
 func vref(k int, ref string) string {
-	n := len(addressable)
-	return fmt.Sprintf("(- (- (+ (* %s %d) %d)) 1)", ref, n, k)
+	return ref
 }
 
 // addressableSplit: for an object of type base and a leaf path "f.rest", is f an addressable field?
@@ -264,8 +266,28 @@ func ptrLocs(p *Ptr, t types.Type) []Loc {
 		case "obj":
 			full := joinPath(p.Path, l.Path)
 			if len(addressable) > 0 {
-				if k, ftKey, rest, ok := addressableSplit(p.Base, full); ok {
-					out[i] = Loc{Key: "H." + ftKey + "." + rest, Sort: SArr(SInt, l.Sort), Idx: []string{vref(k, p.Ref)}, Leaf: l}
+				// redirect through (possibly nested) addressable embedded fields
+				baseKey, path, hit := typeKey(p.Base), full, false
+				for depth := 0; depth < 4; depth++ {
+					i2 := strings.Index(path, ".")
+					first := path
+					if i2 >= 0 {
+						first = path[:i2]
+					}
+					ft, ok := addressableFieldType[baseKey+"."+first]
+					if !ok {
+						break
+					}
+					hit = true
+					baseKey = ft
+					if i2 >= 0 {
+						path = path[i2+1:]
+					} else {
+						path = ""
+					}
+				}
+				if hit {
+					out[i] = Loc{Key: "H." + baseKey + "." + path, Sort: SArr(SInt, l.Sort), Idx: []string{p.Ref}, Leaf: l}
 					continue
 				}
 			}
